@@ -138,7 +138,7 @@ func TestVerifRace_C19_conc(t *testing.T) {
 				}
 			}
 			if n%4 == 3 {
-				cc.DisableDumpAll()
+				c19DisableDump(cc)
 			}
 			cc.Transport.CloseIdleConnections()
 			s.Count("clone")
@@ -146,7 +146,7 @@ func TestVerifRace_C19_conc(t *testing.T) {
 	})
 	close(stop)
 	wg.Wait()
-	c.DisableDumpAll()
+	c19DisableDump(c)
 	c.Transport.CloseIdleConnections()
 	if panicked {
 		s.Crash("conc", "clone + setters on copies while the original executes requests", ptxt, "")
